@@ -116,18 +116,4 @@ theorem FStack.pop_push_sc (s : FStack) (decls : List (Nat × Nat)) :
   unfold FStack.push FStack.pop
   cases decls <;> simp
 
-/-- Reading the top frame under the invariant: a namespace is "known" iff some prefix is bound
-    to it by the nearest-declaration rule. -/
-theorem FrameInv.isNamespaceKnown {s : FStack} {frames : List (List (Nat × Nat))}
-    (h : FrameInv s.top frames) (ns : Nat) :
-    s.isNamespaceKnown ns = true ↔ ∃ p, scopeOf frames p = some ns := by
-  simp only [FStack.isNamespaceKnown, List.any_eq_true]
-  constructor
-  · rintro ⟨⟨p, n⟩, hm, hn⟩
-    simp only [beq_iff_eq] at hn
-    subst hn
-    exact ⟨p, (h.mem p n).1 hm⟩
-  · rintro ⟨p, hp⟩
-    exact ⟨(p, ns), (h.mem p ns).2 hp, by simp⟩
-
 end XotModel
